@@ -98,6 +98,18 @@ Theorem C10_roundtrip_any_partial : forall (dec2f dec2d : list Z -> Z) o vs text
     expand slots = Some vs.
 Proof. exact roundtrip_any. Qed.
 
+(* the same for whole messages (rtosc_print_message / count_of_msg /
+   rtosc_scan_message), compression on or off *)
+Theorem C10_message_any_partial : forall (dec2f dec2d : list Z -> Z) o addr vs text w,
+  good_addr addr -> Forall goodc vs -> Z.of_nat (length vs) < 2 ^ 31 ->
+  print_message o addr vs 0 = Some (text, w) ->
+  exists slots,
+    w = len text /\
+    count_printed_arg_vals_of_msg dec2f dec2d text = Ok (true, Z.of_nat (length slots)) /\
+    scan_message dec2f dec2d text (Z.of_nat (length slots)) = Ok (addr, slots, []) /\
+    expand slots = Some vs.
+Proof. exact message_roundtrip_any. Qed.
+
 (* non-vacuity: a list with a constant run, an elided and an explicit run *)
 Theorem C10_roundtrip_any_nonvacuous :
   Forall goodc ([VT; VT; VT; VT; VT; VI 7] ++ map VI [1; 2; 3; 4; 5; 6] ++ map VH [10; 20; 30; 40; 50]) /\
